@@ -43,6 +43,11 @@ def run(ctx):
     r4_header(ctx)
     r5_factory(ctx)
     r6_chords(ctx)
+    # the six encodings are views of ONE selection: the selected set does not depend on the encoding
+    from . import c05
+    ctx.alias = {'R1': 'R7'}
+    c05.r1_selected_set(ctx)
+    ctx.alias = {}
 
 
 def _replace_chain(ctx, f, node):
